@@ -277,7 +277,7 @@ fn history(ctx: &Ctx, out: &mut Out, rng: &mut Rng, prop: &str, idx: u64) {
         }
         out.obs("histories_with_health_listener", 1);
     }
-    let greased = !c02 && !stats && idx % 8 == 5;
+    let greased = !c02 && idx % 8 == 5;
     if greased {
         cfg.fault_percentage = *rng.pick(&[1u8, 10, 50]);
         out.obs("histories_with_fault_injection", 1);
